@@ -14,7 +14,9 @@ LEVEL_TEXT = {
            "within the model bounds; histories are sampled.",
     "C02": COMMON + "Predicates: C02_AppliedComplete, C02_RefreshApplies (applied = the spec's causally complete set, computed "
            "by TLC from the raw items), C02_RefreshEqualsReload (fresh replica on a byte copy), C02_HeldBackThenApplied; "
-           "file-by-file delivery in seeded permutations with a refresh after every file.",
+           "file-by-file delivery in seeded permutations with a refresh after every file; the in-memory object cache is part "
+           "of the model (MC_cache.cfg) and of the histories (`cache` profile: bodies held only in memory must not make a "
+           "block complete).",
     "C03": COMMON + "Predicate C03_Durable: after every successful commit a replica freshly opened on a copy of the storage "
            "shows the same view, heads, applied graph and document; generated JSON covers braces, quotes, backslashes, "
            "non-ASCII, nesting, all number kinds, several staged operations before the first commit.",
@@ -65,7 +67,9 @@ LEVEL_TEXT = {
            "(C19_TotalOrder, C19_Transitive); system level C19_Canonical on every tree entry.",
 }
 DEFAULT_LEVEL_TEXT = COMMON
-LEVEL_NOTE = ("Trusted: TLC 1.8.0; the harness projection (own SHA-256 / string-aware JSON splitting, independent of "
+LEVEL_NOTE = ("Thorough tier adds larger BFS configs and, for C01/C03/C09/C13, random deep behaviours of the full model "
+              "(tlc -simulate, 3 replicas, depth 30, every invariant and action property checked, sampled schedules replayed). "
+              "Trusted: TLC 1.8.0; the harness projection (own SHA-256 / string-aware JSON splitting, independent of "
               "libmelda's parsers; its own edit-script applier); hooks H2/H3 (cross-checked against raw block files by "
               "C05_TreeFromBlocks); atomic item writes. Bounded: model bounds in spec/mc/*.cfg, sampled histories.")
 TECHNIQUE = {
